@@ -83,6 +83,11 @@ func (s *Session) load(st *State, loc *Loc) Val {
 	if loc.Kind == "G" && s.eng.db.ConstGlobals[loc.TypeKey] == "zero" && loc.Path == "" {
 		return zeroVal(loc.Typ)
 	}
+	if loc.Kind == "G" && s.eng.db.ConstGlobals[loc.TypeKey] == "init" {
+		if v, ok := s.initGlobal(loc); ok {
+			return v
+		}
+	}
 	names, sorts, leaves := locHeaps(loc)
 	v := Val{Typ: loc.Typ}
 	idx := append([]T{loc.Ref}, loc.Idx...)
@@ -410,4 +415,32 @@ func (s *Session) assumeRange(st *State, v Val) {
 	if f.S != "true" {
 		s.assume(f)
 	}
+}
+
+// initGlobal: value of a package-level variable that is only written by its package initialiser with
+// constant operands (checked: no other store to it exists in the package). The initialiser's stores are
+// read from the SSA of the package init function of the current source.
+func (s *Session) initGlobal(loc *Loc) (Val, bool) {
+	full, ok := s.eng.globalInit(loc.TypeKey)
+	if !ok {
+		return Val{}, false
+	}
+	// select sub-value at loc.Path / loc.Idx
+	ls := shape(full.Typ)
+	sub := shape(loc.Typ)
+	out := Val{Typ: loc.Typ}
+	for _, sl := range sub {
+		found := false
+		for i, l := range ls {
+			if l.Path == loc.Path+sl.Path {
+				out.L = append(out.L, nestedSelect(full.L[i], loc.Idx))
+				found = true
+				break
+			}
+		}
+		if !found {
+			return Val{}, false
+		}
+	}
+	return out, true
 }
